@@ -45,8 +45,10 @@ type rejectErr struct{ why string }
 
 func (d *dec) fail(why string) { panic(rejectErr{why}) }
 
-func u16(b []byte) int    { return int(b[0])<<8 | int(b[1]) }
-func u32(b []byte) uint64 { return uint64(b[0])<<24 | uint64(b[1])<<16 | uint64(b[2])<<8 | uint64(b[3]) }
+func u16(b []byte) int { return int(b[0])<<8 | int(b[1]) }
+func u32(b []byte) uint64 {
+	return uint64(b[0])<<24 | uint64(b[1])<<16 | uint64(b[2])<<8 | uint64(b[3])
+}
 
 // Decode decodes a DHCPv6 message or relay message.
 func Decode(b []byte) (res Result) {
@@ -314,7 +316,11 @@ func (d *dec) option(code int, v []byte, base int, depth int) *tree.Node {
 		return tree.N("vendorclass").U("en", u32(v)).L("items", it)
 	case 17:
 		need(len(v) >= 4, "vendoropts-short")
-		kids := d.options(v[4:], -1, depth, func(c int, sv []byte, _ int, _ int) *tree.Node {
+		vb := -1
+		if base >= 0 {
+			vb = base + 4
+		}
+		kids := d.options(v[4:], vb, depth, func(c int, sv []byte, _ int, _ int) *tree.Node {
 			return tree.N("sub").U("code", uint64(c)).B("data", sv)
 		})
 		return tree.N("vendoropts").U("en", u32(v)).K(kids...)
@@ -341,7 +347,7 @@ func (d *dec) option(code int, v []byte, base int, depth int) *tree.Node {
 		need(len(v) >= 1, "fqdn-empty")
 		return tree.N("fqdn").U("flags", uint64(v[0])).L("names", d.names("fqdn", v[1:], true))
 	case 56:
-		kids := d.options(v, -1, depth, func(c int, sv []byte, _ int, _ int) *tree.Node {
+		kids := d.options(v, base, depth, func(c int, sv []byte, _ int, _ int) *tree.Node {
 			switch c {
 			case 1:
 				need(len(sv) == 16, "ntp-srvaddr-length")
